@@ -557,16 +557,27 @@ mod query {
         rid: &RepoId,
         filter: &State,
     ) -> Result<IssuesIter<'a>, Error> {
+        // Nb. A closed state only matches issues closed for the same reason, as
+        // `State` equality does when the issues are evaluated from the repository.
+        let reason = match filter {
+            State::Open => sql::Value::Null,
+            State::Closed { reason } => match serde_json::to_value(reason)? {
+                serde_json::Value::String(reason) => sql::Value::String(reason),
+                _ => sql::Value::Null,
+            },
+        };
         let mut stmt = db.prepare(
             "SELECT id, issue
              FROM issues
              WHERE repo = ?1
              AND issue->>'$.state.status' = ?2
+             AND (?3 IS NULL OR issue->>'$.state.reason' = ?3)
              ORDER BY id
             ",
         )?;
         stmt.bind((1, rid))?;
         stmt.bind((2, sql::Value::String(filter.to_string())))?;
+        stmt.bind((3, reason))?;
         Ok(IssuesIter {
             inner: stmt.into_iter(),
         })
